@@ -37,7 +37,7 @@ kf_s = src / "known_findings.json"
 if kf_s.exists():
     ks = json.loads(kf_s.read_text()); kd = json.loads((dst / "known_findings.json").read_text())
     have = {(f.get("property"), f.get("key")) for f in kd["findings"]}
-    RETIRED = {("C17", "C17-dead-load-after-return-reported"), ("C09", "C09-contract-ignores-overriding-name"), ("C11", "C11-proto-leak-after-failed-compile"), ("C05", "C05-spill-return-kind")}   # decided not to be findings; never re-import
+    RETIRED = {("C17", "C17-dead-load-after-return-reported"), ("C09", "C09-contract-ignores-overriding-name"), ("C11", "C11-proto-leak-after-failed-compile"), ("C05", "C05-spill-return-kind"), ("C04", "C04-txna-index-over-255"), ("C04", "C04-assetcreator-below-v5"), ("C04", "C04-name-newline"), ("C18", "C18-name-newline"), ("C12", "C12-index-over-255"), ("C04", "C04-intc-over-255"), ("C13", "methodsig-unescaped")}   # decided not to be findings; never re-import
     add = [f for f in ks.get("findings", []) if (f.get("property"), f.get("key")) not in have and (f.get("property"), f.get("key")) not in RETIRED]
     kd["findings"] += add
     (dst / "known_findings.json").write_text(json.dumps(kd, indent=1))
